@@ -37,6 +37,7 @@ import (
 	"fmt"
 	"sort"
 	"strings"
+	"time"
 
 	"github.com/alpacahq/marketstore/v4/verif/internal/gen"
 	"github.com/alpacahq/marketstore/v4/verif/internal/ms"
@@ -45,7 +46,7 @@ import (
 
 func c19cases(tier string) int {
 	if tier == "thorough" {
-		return 1500
+		return 300
 	}
 	return 48
 }
@@ -424,10 +425,11 @@ func init() {
 			"datetime strings are UTC (the instance runs with the default UTC timezone)",
 			"the statement is executed through the calls DataService.executeSQL makes, without the msgpack/numpy encoding of the response (C27-C29)",
 		},
-		Cases:       c19cases,
-		Batch:       25,
-		Run:         c19run,
-		Need:        []string{"statements", "rows_compared", "expected_proper_subset", "statements_with_literal_on_stored_value", "statements_main"},
-		MinDistinct: 20,
+		Cases:        c19cases,
+		Batch:        6,
+		BatchTimeout: 30 * time.Minute,
+		Run:          c19run,
+		Need:         []string{"statements", "rows_compared", "expected_proper_subset", "statements_with_literal_on_stored_value", "statements_main"},
+		MinDistinct:  20,
 	})
 }
